@@ -35,13 +35,24 @@ def dd : List Char → Nat
 
 def startsWith (p s : List Char) : Bool := p.isPrefixOf s
 
+/-- the harness's padding characters (`PADS` in c20.rs): the guard looks through them. -/
+def pads : List Char :=
+  [' ', '\t', '\n', '\r', '\x0b', '\x0c', '\u00a0', '\u3000', '\u2028', '\ufeff', '\u200b', '"', '\'']
+
+def stripPads (l : List Char) : List Char := l.dropWhile (fun c => pads.contains c)
+
 def unsafeArgs (direct other : List String) : Bool :=
   let bad (s : String) : Bool :=
     let l := s.toList
-    isAbs l &&
-      !(startsWith "/S/".toList l && dd l == 0 &&
-        (segs (l.drop 3)).any (fun g => !(g == [] || g == dot)))
+    let t := stripPads l
+    (isAbs t || t.head? == some '\\') &&
+      !(startsWith "/S/".toList t && dd l == 0 &&
+        (segs (t.drop 3)).any (fun g => !(g == [] || g == dot)))
   direct.any bad || ((direct ++ other).map (fun s => dd s.toList)).sum > 3
+
+/-- the harness's `cu_ok`: a CDN path of non-empty `[a-z0-9]` segments. -/
+def cuOk (path : String) : Bool :=
+  !path.isEmpty && (segs path.toList).all (fun g => !g.isEmpty && g.all (fun c => c.isLower || c.isDigit))
 
 def layoutLevels : String → Option Nat
   | "flat" => some 0
@@ -230,6 +241,47 @@ def urlPart (cu : Bool) (tail : Option Str) : String :=
   | some t => encS (String.ofList ('/' :: t))
   | none => "-"
 
+/-- one call of op `cdnx`. -/
+inductive XCall where
+  | dl (ct : ContentType)
+  | index
+  | uncached (ct : ContentType)      -- download_range / download_with_resume / download_with_progress
+
+def parseXCall (c : String) : Option XCall :=
+  match c.splitOn "." with
+  | ["dl", ct] => (ctOf ct).map .dl
+  | ["progress", ct] => (ctOf ct).map .uncached
+  | ["index"] => some .index
+  | ["range", ct, off, len] =>
+    match ctOf ct, off.toNat?, len.toNat? with
+    | some ct, some o, some l => if l = 0 || o ≥ 2 ^ 64 || l ≥ 2 ^ 64 || o + l > 2 ^ 64 - 1 then none else some (.uncached ct)
+    | _, _, _ => none
+  | ["resume", ct, off] =>
+    match ctOf ct, off.toNat? with
+    | some ct, some o => if o < 2 ^ 64 then some (.uncached ct) else none
+    | _, _ => none
+  | _ => none
+
+/-- `cdnx`: the calls in order against one cache (the set of cache keys stored so far): a caching
+entry point whose key is present answers from the cache, everything else contacts the CDN. -/
+def runXCalls (path : Str) (key : List Nat) : List XCall → List Str → List String × List Str
+  | [], stored => ([], stored)
+  | c :: rest, stored =>
+    let fetch (ck : Outcome Str) (tail : Option Str) (caching : Bool) : String × List Str :=
+      match ck with
+      | .invalidKey => ("err:invalid-key@-", stored)
+      | .panic => ("panic", stored)
+      | .ok k =>
+        if caching && stored.contains k then ("ok@-", stored)
+        else ("ok@" ++ urlPart true tail, if caching then stored ++ [k] else stored)
+    let (r, stored') :=
+      match c with
+      | .dl ct => fetch (downloadCacheKey path ct key) (cdnTail path ct.text (hexEncode key) []) true
+      | .index => fetch (archiveIndexCacheKey path (hexEncode key)) (cdnTail path sData (hexEncode key) sIndexExt) true
+      | .uncached ct => fetch (downloadCacheKey path ct key) (cdnTail path ct.text (hexEncode key) []) false
+    let (rs, fin) := runXCalls path key rest stored'
+    (r :: rs, fin)
+
 def handle : List String → String
   | ["raw", layout, k] =>
     match layoutLevels layout, decStr k with
@@ -349,6 +401,21 @@ def handle : List String → String
         else "bad-op"
       | _, _ => "bad-op"
     | _, _ => "bad-op"
+  | "cdnx" :: backing :: path :: key :: calls =>
+    match decStr path, parseHexNat key, calls.mapM parseXCall with
+    | some path, some key, some xs =>
+      if xs.isEmpty || !(backing == "disk" || backing == "mem") then "bad-op"
+      else if !cuOk path then "n/a"
+      else
+        let (rs, stored) := runXCalls path.toList key xs []
+        let files := if backing == "disk" then
+            sortStrings ((stored.filterMap fun k =>
+              match putKey 0 (String.ofList k) with
+              | .ok f => some (String.ofList (render f))
+              | .err _ => none).eraseDups)
+          else []
+        " ".intercalate rs ++ " files=" ++ (if files.isEmpty then "-" else ",".intercalate (files.map encS))
+    | _, _, _ => "bad-op"
   | "ctor" :: name :: args =>
     match parseCtor name args with
     | some c => "key=" ++ encS (String.ofList (cacheKey c.key)) ++ " same=1"
